@@ -69,8 +69,8 @@ def blocksGo (shapass salt : Bytes) (rounds numBlocks : Nat) : Nat → Array UIn
     (`key[:keyLen]` / `make([]byte, negative)`) -/
 def key (password salt : Bytes) (rounds keyLen : Int) : Out :=
   if rounds < 1 then .err
-  else if password.length == 0 then .err
-  else if salt.length == 0 || salt.length > 2 ^ 20 then .err
+  else if password.length = 0 then .err
+  else if salt.length = 0 ∨ salt.length > 2 ^ 20 then .err
   else if keyLen > 1024 then .err
   else if keyLen < 0 then .panic
   else
